@@ -26,16 +26,18 @@ ASSUMPTIONS = ["KeyboardInterrupt inside hooks is outside the quantifier",
 def shapes():
     # tag names are chosen to contain the words the hook dispatcher looks for in HOOK names ("all", "tag", "step",
     # "feature", "scenario", "rule"): a tag's text must never change which element a failing tag hook is attributed to
-    s1 = P.S(("pass",), tags=("small",))
+    # ... and characters that text-formatting operators interpret ('%', '{}'): the tag of a failing tag hook ends up in
+    # the HOOK-ERROR message
+    s1 = P.S(("pass",), tags=("small", "p100%"))
     s2 = P.S(("pass", "pass"), tags=("small", "stepall"))
-    o1 = P.O((("pass",),), tags=("scenario_tag",), extags=("feature.x",))
+    o1 = P.O((("pass",),), tags=("scenario_tag",), extags=("feature.x", "{0}%s"))
     o2 = P.O((("pass",), ("pass",)), tags=("scenario_tag",), extags=("feature.x",))
     su = P.S(("pass",), tags=("u",))
     pres = [(), (s1,), (o1,), (s2, o2)]
     rules = [(s1,), (o2,), (s1, o1), (o1, s2)]
     for pre, ritems, bgmode in itertools.product(pres, rules, (0, 1, 2)):
-        rule = P.R(ritems + (su,), tags=("rule_all",), bg=("pass",) if bgmode == 2 else None)
-        yield P.F(pre + (rule,), tags=("all",), bg=("pass",) if bgmode >= 1 else None)
+        rule = P.R(ritems + (su,), tags=("rule_all", "r%d{}"), bg=("pass",) if bgmode == 2 else None)
+        yield P.F(pre + (rule,), tags=("all", "100%"), bg=("pass",) if bgmode >= 1 else None)
 
 
 SECOND = P.F((P.S(("pass",)),))
